@@ -19,6 +19,8 @@ EncLen(n) ==                                              \* n: Big, 0 <= n < 2^
   ELSE LET k == OctetsUnsigned(n) IN <<128 + k>> \o Octets(n.m, k)
 
 EncBool(b) == <<IF b THEN 1 ELSE 0>>
+\* identifier, length, contents: what the typed writer (BasicWriter) emits for a primitive value
+TLV(cls, num, content) == EncTag(cls, num) \o EncLen(BOfInt(Len(content))) \o content
 DecBool(o) == o # 0
 
 \* 64-bit two's complement pattern of v as an unsigned Big
